@@ -4,6 +4,7 @@ import (
 	"bytes"
 	"fmt"
 	"strings"
+	"sync/atomic"
 
 	"verif/engine/bind"
 	"verif/engine/ev"
@@ -139,7 +140,7 @@ func runC01(r *ev.Run, thorough bool) {
 				k = 3
 			}
 		}
-		valenum.Enum(t, valenum.Opts{K: k, Canonical: true, Big: true}, func(c *valenum.Case) bool {
+		valenum.Enum(t, valenum.Opts{K: k, Canonical: true, Big: true, Combos: true}, func(c *valenum.Case) bool {
 			key := ev.H(t.QName() + c.V.String())
 			l.Eval(key, c.Base == "D" || c.NDev > 0)
 			l.States[key] = struct{}{}
@@ -156,6 +157,29 @@ func runC01(r *ev.Run, thorough bool) {
 			return true
 		})
 	})
+	// complete size sweeps: every prefixed-text length and every list length up to the sweep bound, no windows
+	st, sl := sweepBounds(thorough)
+	var nsweep int64
+	parTypes(r, bind.Types, func(t *rm.Type, l *ev.Local) {
+		n := int64(0)
+		valenum.Enum(t, valenum.Opts{K: 1, Canonical: true, SweepText: st, SweepList: sl}, func(c *valenum.Case) bool {
+			if c.NDev == 0 {
+				return true
+			}
+			n++
+			l.Eval(ev.H(t.QName()+"sweep"+c.Base+c.Desc), true)
+			l.Transitions += 2
+			l.Traces++
+			if viol := c01Case(t, c.V); viol != nil {
+				viol.Detail = "size sweep, base " + c.Base + " dev {" + c.Desc + "}: " + viol.Detail
+				r.Violate(viol)
+				return !r.TooMany()
+			}
+			return true
+		})
+		atomic.AddInt64(&nsweep, n)
+	})
+	r.Set("size_sweep", map[string]any{"every_prefixed_text_length_0_to": st, "every_list_length_0_to": sl, "values": nsweep})
 	// after a long session (state the library may accumulate across calls): never-seen values must still round-trip
 	wn := warmN(thorough)
 	warmSession(r, wn)
@@ -243,7 +267,7 @@ func runC02(r *ev.Run, thorough bool) {
 		if thorough {
 			k = 2
 		}
-		valenum.Enum(t, valenum.Opts{K: k, Big: true}, func(c *valenum.Case) bool {
+		valenum.Enum(t, valenum.Opts{K: k, Big: true, Combos: true}, func(c *valenum.Case) bool {
 			key := ev.H(t.QName() + c.V.String())
 			l.Eval(key, c.Base == "D" || c.NDev > 0)
 			l.States[key] = struct{}{}
@@ -256,6 +280,31 @@ func runC02(r *ev.Run, thorough bool) {
 			}
 			return true
 		})
+		// complete size sweeps (encode direction, and the reference wire of each through the decoder)
+		st, sl := sweepBounds(thorough)
+		ns := int64(0)
+		valenum.Enum(t, valenum.Opts{K: 1, SweepText: st, SweepList: sl}, func(c *valenum.Case) bool {
+			if c.NDev == 0 {
+				return true
+			}
+			ns++
+			l.Eval(ev.H(t.QName()+"sweep"+c.Base+c.Desc), true)
+			l.Transitions += 2
+			l.Traces++
+			viol := c02Case(t, c.V)
+			if viol == nil {
+				if ref, _, _, rerr := rm.EncodeRef(c.V); rerr == nil {
+					viol = c02Wire(t, append(ref, 0xAA, 0xBB, 0xCC))
+				}
+			}
+			if viol != nil {
+				viol.Detail = "size sweep, base " + c.Base + " dev {" + c.Desc + "}: " + viol.Detail
+				r.Violate(viol)
+				return !r.TooMany()
+			}
+			return true
+		})
+		r.Add("size_sweep_values", ns)
 		// decode direction
 		n := 0
 		wireSpace(t, wireOpts{DevBaseOnly: !thorough, Dev: 1, Indel: true}, func(w []byte, desc string) bool {
@@ -280,6 +329,14 @@ func runC02(r *ev.Run, thorough bool) {
 	})
 	r.Sample("sse.Logon D .HeartBtInt=0x1: library bytes == schema bytes")
 	r.Set("bound", map[string]any{"k_deviations": k12(thorough), "wire_deviations": 1, "types": len(bind.Types)})
+}
+
+// sweepBounds: complete size sweeps — every prefixed-text length 0..st and every list length 0..sl (DESIGN 7).
+func sweepBounds(thorough bool) (st, sl int) {
+	if thorough {
+		return 20000, 5000
+	}
+	return 2200, 600
 }
 
 func k12(th bool) int {
